@@ -16,7 +16,15 @@ Three-way (in fact four-way) correspondence on every run:
        the additive in-range part (what the theorems cover).
  (iii) whole runs: Machine(prog).run(sim_lim) vs run_prover(prog, sim_lim) on
        outcome kind, marks, rule applications, blank record, for the runs
-       inside the property's quantifier.
+       inside the property's quantifier; on EVERY run the real Machine.run is
+       also compared with the extracted whole-run Python model
+       (PyMachineModel.py_run, bbm `pyrunx`: + steps, cycles, configurations,
+       complete rule table), and the guard of theorem C17_py_rs_run_agree
+       (PyRunAgree.run_inside, bbm `pyguard`) is evaluated and tallied by the
+       difference D1..D6 that makes it fail.
+ (iv)  components that whole runs rarely reach (tools/pycomp_diff.py): real
+       Tape.sig_compatible, EnumTape op streams, Prover.get_rule,
+       Prover.get_min_sig vs the models.
 
 Python != Rust is a concrete VIOLATION (replay = input + both answers);
 model != implementation alone is a correspondence failure
@@ -38,18 +46,24 @@ import time
 
 from lib import core, gen
 from props import C12
+from tools import pycomp_diff, pyrun_diff
 
 LEVEL = 'other'
 BBH_FEATURES = ['py', 'prover']      # harness command families this check needs (fallback build, lib/core.py build_bbh)
 PY312 = os.environ.get('BB_PY312', '/root/.pyenv/versions/3.12.1/bin/python')
 PYH = f'{core.VERIF}/py/pyharness17.py'
+PYHX = f'{core.VERIF}/py/pyharness17x.py'      # + pyrunx: steps, cycles, configurations, rule table
 U64 = (1 << 64) - 1
 
 TRUSTED_EXTRA = [
     'py/pyharness17.py (drives the real tm.tape.Tape / tm.rules / tm.machine.Machine; prints records); '
     'CPython 3.12.1; pyo3 marshalling of the extension the Python side imports',
-    'whole-run agreement (Machine.run vs run_prover) is NOT a theorem: tm/machine.py and tm/prover.py are '
-    'not modelled; it is established on the explored programs only',
+    'whole-run agreement (Machine.run vs run_prover) is a theorem (C17_py_rs_run_agree) about the Gallina models '
+    'of tm/machine.py + tm/prover.py and of run_prover, for the runs on which its decidable guard run_inside '
+    'holds (evaluated on every explored run, bbm pyguard); the models are tied to the real code by execution: '
+    'real Machine.run = py_run (kind, marks, rulapp, blank record, steps, cycles, configurations, the complete '
+    'rule table), real Tape.sig_compatible / EnumTape / Prover.get_rule / Prover.get_min_sig = models '
+    '(tools/pycomp_diff.py), real run_prover = ProverModel (C02)',
 ]
 ASSUMPTIONS = [
     'the cycle limit is an input common to both runners: xlimit is compared as an outcome kind, not '
@@ -114,12 +128,14 @@ def check_tree_stable(d0, root):
     if not d0 == d1 == ds:
         raise core.BuildError('the checked tree changed while C17 was running',
                               f'digest at start {d0}, at end {d1}, scratch copy {ds} ({src})')
-    newer = [f for f in glob.glob('/repo/src/*.rs') if os.path.getmtime(f) > os.path.getmtime(core.BBH)]
+    # (with BBH_OVERRIDE the harness was built from a scratch copy on purpose: self-tests)
+    newer = [] if core.BBH_OVERRIDE else [
+        f for f in glob.glob('/repo/src/*.rs') if os.path.getmtime(f) > os.path.getmtime(core.BBH)]
     if newer:
         raise core.BuildError('bbh is older than /repo/src (changed after the harness build)', ' '.join(newer))
 
 
-def run_py(root, lines, shards=16, timeout=3000, cpu=None):
+def run_py(root, lines, shards=16, timeout=3000, cpu=None, harness=None):
     """pyharness17 over the case lines, sharded; dict id -> answer"""
     if not lines:
         return {}
@@ -130,7 +146,7 @@ def run_py(root, lines, shards=16, timeout=3000, cpu=None):
     procs = []
     for k in range(n):
         part = lines[k::n]
-        p = subprocess.Popen([PY312, PYH], stdin=subprocess.PIPE, stdout=subprocess.PIPE,
+        p = subprocess.Popen([PY312, harness or PYH], stdin=subprocess.PIPE, stdout=subprocess.PIPE,
                              stderr=subprocess.PIPE, text=True, env=env)
         procs.append((p, part))
     results = [None] * len(procs)
@@ -466,11 +482,14 @@ def classify(py_ans, rs_ans):
     return 'same', (pr != '0')
 
 
-def check_runs(root, seed, tier, fails, dist, cov):
+def check_runs(root, seed, tier, fails, dist, cov, diffs):
     cs, d = run_cases(seed, tier)
     dist.update(d)
     rs = core.run_bbh([f'{i}|rsrun|{p}|{lim}' for i, p, lim in cs])
-    py = run_py(root, [f'{i}|pyrun|{p}|{lim}' for i, p, lim in cs], cpu=10 if tier == 'quick' else 15)
+    pyx = run_py(root, [f'{i}|pyrunx|{p}|{lim}' for i, p, lim in cs], cpu=10 if tier == 'quick' else 15,
+                 harness=PYHX)
+    # the four compared fields + flags (the `pyrun` answer) are the first five fields of `pyrunx`
+    py = {i: ('|'.join(a.split('|')[:5]) if a.count('|') >= 4 else a) for i, a in pyx.items()}
     inside, nontrivial = 0, set()
     outside = {}
     samples = []
@@ -491,11 +510,44 @@ def check_runs(root, seed, tier, fails, dist, cov):
                           'program': p, 'cycle_limit': lim, 'python_Machine_run': a,
                           'rust_run_prover': b, 'why': info,
                           'answer_format': 'kind|marks|rulapp|blanks(state:step)|python flags'})
+    # tie of the whole-run Python model (PyMachineModel.py_run) to the real Machine.run, on every run
+    mo = pyrun_diff.run_bbm([f'{i}|pyrunx|{p}|{lim}' for i, p, lim in cs])    # long timeout: 10^4-cycle runs
+    tie = {}
+    for i, p, lim in cs:
+        a, b = pyx.get(i, 'PYHARNESS-MISSING'), mo.get(i, 'MISSING-M')
+        v, info = pyrun_diff.compare_model(a, b)
+        tie[v] = tie.get(v, 0) + 1
+        if v == 'DIFF':
+            diffs.append((i, f'pyrunx|{p}|{lim}', a[:600], b[:600],
+                          'tm/machine.py Machine.run + tm/prover.py (real) = PyMachineModel.py_run: ' + info))
+    # the guard of theorem C17_py_rs_run_agree (extracted PyRunAgree.run_inside) on every run the model finishes
+    done = [(i, p, lim) for i, p, lim in cs if mo.get(i, 'MISSING').split('|')[0] not in ('outside', 'exc', 'MISSING')]
+    gd = pyrun_diff.run_bbm([f'{i}|pyguard|{p}|{lim}' for i, p, lim in done])
+    rmod = pyrun_diff.run_bbm([f'{i}|prover|{p}|{lim}' for i, p, lim in done])
+    holds, why, instances = 0, {}, 0
+    for i, p, lim in done:
+        g = gd.get(i, 'MISSING')
+        if g == '1':
+            holds += 1
+            m_rs = pyrun_diff.rust_fields(rmod.get(i, 'PANIC'))
+            if m_rs != 'PANIC':
+                instances += 1
+                v2, info2 = classify('|'.join(mo[i].split('|')[:4]) + '|', m_rs)
+                if v2 != 'same':       # would contradict the theorem: the extraction or the glue is broken
+                    diffs.append((i, f'pyguard|{p}|{lim}', mo[i][:300], m_rs,
+                                  'instance of theorem C17_py_rs_run_agree re-observed on the extracted models: ' + info2))
+        else:
+            k = g.split('|')[-1]
+            why[k] = why.get(k, 0) + 1
     cov['whole_runs'] = {
         'total': len(cs), 'inside_quantifier_compared': inside,
         'inside_with_rule_applications': len(nontrivial),
         'outside_quantifier': dict(sorted(outside.items(), key=lambda kv: -kv[1])),
         'outside_total': sum(outside.values()),
+        'real_python_vs_python_model': tie,
+        'theorem_guard_run_inside': {'evaluated': len(done), 'holds': holds,
+                                     'fails_by_reason': dict(sorted(why.items(), key=lambda kv: -kv[1])),
+                                     'theorem_instances_reobserved': instances},
     }
     return len(cs), len(nontrivial), samples
 
@@ -560,11 +612,17 @@ def run(rep, tier, seed):
         # (iii) whole runs
         t0 = time.time()
         cov = {}
-        nruns, nrun_nt, rsamples = check_runs(root, seed, tier, fails, dist, cov)
+        nruns, nrun_nt, rsamples = check_runs(root, seed, tier, fails, dist, cov, diffs)
         timing['whole_runs_s'] = round(time.time() - t0, 1)
+        # (iv) components that whole runs rarely reach (sig_compatible, EnumTape, get_rule, get_min_sig)
+        t0 = time.time()
+        ncomp, cdiffs, cdist = pycomp_diff.check(root, seed, tier)
+        diffs.extend(cdiffs)
+        dist['components'] = cdist
+        timing['components_s'] = round(time.time() - t0, 1)
         rep.coverage.update(cov)
         rep.coverage.update({
-            'evaluations': len(tcs) + nrules + nruns,
+            'evaluations': len(tcs) + nrules + nruns + ncomp,
             'distinct_nontrivial': len(ntr) + nrun_nt,
             'tape_sequences': len(tcs),
             'tape_sequences_python_ne_rust': len(tape_bad),
@@ -585,8 +643,11 @@ def run(rep, tier, seed):
                            'tape, same number of cells), all observers equal, additive count_apps/apply_rule and '
                            'additive difference inference equal on stated ranges, with witnesses that the ranges '
                            'are needed.  Runtime: the models are tied to the real Python and the real Rust code '
-                           'and the two real implementations are compared directly; whole-run agreement is '
-                           'established on the explored programs only (not a theorem).',
+                           'and the two real implementations are compared directly.  Whole runs: theorem '
+                           'C17_py_rs_run_agree (py_run = run_prover on kind, marks, rule applications, blank record '
+                           'under the decidable guard run_inside) about the models of tm/machine.py + tm/prover.py and '
+                           'of run_prover; the Python model is tied to the real Machine.run on every run here, the '
+                           'guard is evaluated on every run here.',
             'python_tree': os.environ.get('BB_REPO_OVERRIDE', '/repo'),
             'tree_digest(src/*.rs,tm/*.py)': d0,
             'exhaustive': False,
